@@ -121,6 +121,42 @@ def _(ctx):
     return ('isnormal', ctx.args[0])
 
 
+@model('<f64>::classify')
+def _(ctx):
+    x = scalar(ctx, ctx.args[0])
+    return Enum(FPCATEGORY, ((('isnan', x), 0, ()), (('isinfinite', x), 1, ()), (('fiszero', x), 2, ()),
+                             (('issubnormal', x), 3, ()), (('isnormal', x), 4, ())))
+
+
+@model('<f64>::is_subnormal')
+def _(ctx):
+    return ('issubnormal', ctx.args[0])
+
+
+@model('std::mem::replace')
+def _(ctx):
+    it = ctx.interp
+    dst = ctx.args[0]
+    if not isinstance(dst, Ref):
+        return NotImplemented
+    old = it.read(ctx.state, dst.root, dst.path)
+    it.write(ctx.state, dst.root, dst.path, ctx.args[1])
+    return old
+
+
+@model('std::mem::swap')
+def _(ctx):
+    it = ctx.interp
+    a, b = ctx.args
+    if not (isinstance(a, Ref) and isinstance(b, Ref)):
+        return NotImplemented
+    va = it.read(ctx.state, a.root, a.path)
+    vb = it.read(ctx.state, b.root, b.path)
+    it.write(ctx.state, a.root, a.path, vb)
+    it.write(ctx.state, b.root, b.path, va)
+    return Tup(())
+
+
 @model('<f64>::is_nan')
 def _(ctx):
     return ('isnan', ctx.args[0])
@@ -663,6 +699,15 @@ def _(ctx):
 
 
 # ---------------------------------------------------------------- streams
+def isatsub(a, b):
+    """saturating a − b on lengths; folded when both are literals or b is 0"""
+    if a[0] == 'ic' and b[0] == 'ic':
+        return iconst(max(0, a[1] - b[1]))
+    if b == iconst(0):
+        return a
+    return ('isatsub', a, b)
+
+
 def stream_len(it, st, s):
     k = s.kind
     if k == 'src':
@@ -684,22 +729,22 @@ def stream_len(it, st, s):
     if k == 'chain':
         return it.iadd(stream_len(it, st, s.parts[0]), stream_len(it, st, s.parts[1]))
     if k == 'skip':
-        return ('isatsub', stream_len(it, st, s.parts[0]), s.parts[1])
+        return isatsub(stream_len(it, st, s.parts[0]), s.parts[1])
     if k == 'opaque':
         return ('slen', s.parts[0])
     if k == 'range':
         a, b = s.parts
-        if a[0] == 'ic' and b[0] == 'ic':
-            return iconst(max(0, b[1] - a[1]))
-        return ('isatsub', b, a)
+        return isatsub(b, a)
     if k == 'windows':
         sl, w = s.parts
-        return ('isatsub', slice_len(it, sl), it.isub(w, iconst(1)))
+        return isatsub(slice_len(it, sl), it.isub(w, iconst(1)))
     if k == 'chunks':
         sl, w, exact = s.parts
         return ('idiv', slice_len(it, sl), w)
     if k == 'scan':
         return stream_len(it, st, s.parts[0])
+    if k == 'prefix':
+        return s.parts[1]
     raise Unsupported('length of stream %s' % k)
 
 
@@ -744,6 +789,8 @@ def stream_elem(ctx, s, i):
         raise Unsupported('cloned over non-reference elements')
     if k == 'enumerate':
         return Tup((it.iadd(s.parts[1], i), stream_elem(ctx, s.parts[0], i)))
+    if k == 'prefix':
+        return stream_elem(ctx, s.parts[0], i)
     if k == 'zip':
         return Tup((stream_elem(ctx, s.parts[0], i), stream_elem(ctx, s.parts[1], i)))
     if k == 'lit':
@@ -854,6 +901,9 @@ def _stream_arg(ctx, v):
         t = ctx.interp.read(ctx.state, v.root, v.path)
         if isinstance(t, Stream):
             return t
+        if isinstance(t, Struct) and t.path.split('::')[-1] == 'Range':
+            # `(a..b).all(..)`: the range itself is the iterator
+            return to_stream(ctx, t)
     return to_stream(ctx, v)
 
 
@@ -882,6 +932,15 @@ def to_stream(ctx, v):
     if isinstance(v, Enum) and v.path == OPTION:
         raise Unsupported('Option as iterator')
     raise Unsupported('into_iter of %s' % type(v).__name__)
+
+
+@model('<std::ops::RangeInclusive<Idx>>::new')
+def _(ctx):
+    # a..=b visits a, …, b: the half-open range a..b+1 (b is a length-like quantity here, far from usize::MAX)
+    a, b = ctx.args
+    if not (isinstance(a, tuple) and isinstance(b, tuple)):
+        return NotImplemented
+    return Stream('range', (a, ctx.interp.iadd(b, iconst(1))))
 
 
 @model('std::iter::IntoIterator::into_iter')
@@ -1037,6 +1096,38 @@ def _(ctx):
     return opt(found, it.subst_value(e, {ivar: idx}))
 
 
+@model('std::iter::Iterator::take_while')
+def _(ctx):
+    """`s.take_while(p)` with a pure `p`: the prefix of s before the first element on which p fails
+    (a first-match search for ¬p; the whole of s when there is none)"""
+    it = ctx.interp
+    s = _stream_arg(ctx, ctx.args[0])
+    base, rev = _search_base(ctx, s)
+    if rev:
+        raise Unsupported('take_while over a reversed stream')
+    st0 = ctx.state
+    ivar = it.fresh_sym('ι')
+    n = stream_len(it, st0, base)
+    sub = CallCtx(it, ctx.frame, st0.with_fact(mk_icmp('lt', ivar, n)), ctx.term, [], None, None)
+    e = stream_elem(sub, base, ivar)
+    cell = Ref(it.alloc(sub.state, e, 'twe'), ())
+    r = it.call_closure(sub, ctx.args[1], [cell])
+    if not isinstance(r, tuple):
+        raise Unsupported('take_while predicate is not a boolean term')
+    for root, v in sub.state.store.items():
+        v0 = st0.store.get(root)
+        if v0 is not None and v0 is not v and v0 != v:
+            raise Unsupported('take_while with a predicate that changes state')
+    P = mk_not(r)
+    sterm = it.abstract(st0, base)
+    found = ('found', sterm, ivar, P)
+    idx = ('firstidx', sterm, ivar, P)
+    it.events.append({'kind': 'search', 'op': 'take_while', 'fn': ctx.frame.f['path'] if ctx.frame else None,
+                      'line': ctx.line, 'stream': s, 'base': base, 'rev': False, 'ivar': ivar, 'pred': P,
+                      'idx': idx, 'found': found})
+    return Stream('prefix', (base, mk_sel(found, idx, n)))
+
+
 @model('std::iter::Iterator::all')
 def _(ctx):
     it = ctx.interp
@@ -1097,6 +1188,36 @@ def _(ctx):
     t = ('fold', it.abstract(st0, s), init, acc, ivar, r)
     ev['term'] = t
     return t
+
+
+@model('std::iter::Iterator::try_for_each')
+def _(ctx):
+    """`s.try_for_each(f)` with a pure `f` returning Result<(), E> / Option<()>: Ok(()) iff f is Ok on every element
+    (the first failure is returned; which one is left uninterpreted)"""
+    it = ctx.interp
+    s = _stream_arg(ctx, ctx.args[0])
+    st0 = ctx.state
+    ivar, r, sub = _closure_on_elem(ctx, s, ctx.args[1])
+    # the closure must not change any state (then evaluating it on a symbolic element is all there is to know)
+    for root, v in sub.state.store.items():
+        v0 = st0.store.get(root)
+        if v0 is not None and v0 is not v and v0 != v:
+            raise Unsupported('try_for_each with a closure that changes state')
+    if not (isinstance(r, Enum) and r.path in (RESULT, OPTION)):
+        raise Unsupported('try_for_each closure does not return Result/Option')
+    good = 0 if r.path == RESULT else 1
+    okg = FALSE
+    for g, var, f in r.alts:
+        if var == good:
+            okg = mk_or(okg, g)
+    dom = s
+    while isinstance(dom, Stream) and dom.kind == 'cloned':
+        dom = dom.parts[0]
+    allok = ('all', it.abstract(st0, dom), ivar, okg)
+    bad = Opaque(('try_for_each_break', it.abstract(st0, s)))
+    if r.path == RESULT:
+        return Enum(RESULT, ((allok, 0, (Tup(()),)), (mk_not(allok), 1, (bad,))))
+    return Enum(OPTION, ((mk_not(allok), 0, ()), (allok, 1, (Tup(()),))))
 
 
 def _concrete_len(n):
@@ -1596,3 +1717,266 @@ def _(ctx):
     if p2 is None:
         return none()
     return opt(mk_and(g, g2), p2)
+
+
+# ---------------------------------------------------------------- loops that are folds
+def _stream_cursors(a, b, out):
+    """parallel walk of two streams of the same shape: collects (term in a, term in b) where they differ"""
+    if isinstance(a, Stream) and isinstance(b, Stream):
+        if a.kind != b.kind or len(a.parts) != len(b.parts):
+            return False
+        return all(_stream_cursors(x, y, out) for x, y in zip(a.parts, b.parts))
+    if isinstance(a, SliceRef) and isinstance(b, SliceRef):
+        if (a.root, a.path, a.mut) != (b.root, b.path, b.mut):
+            return False
+        return _stream_cursors(a.start, b.start, out) and _stream_cursors(a.end, b.end, out)
+    if isinstance(a, tuple) and isinstance(b, tuple):
+        if a != b:
+            out.append((a, b))
+        return True
+    return a == b or a is b
+
+
+def close_fold_loop(it, frame, summ):
+    """FOLD-LOOP: a loop that walks one stream to exhaustion, unconditionally, carrying one scalar and nothing else, is
+    the fold of its body over that stream (`for e in s { acc = g(acc, e) }`  ≡  `s.fold(acc0, g)`).  Returns the closed
+    form of the scalar at the `exhausted` exit and records the same event as Iterator::fold."""
+    from .terms import subst_term
+    streams = [(r, p, fv, iv) for r, p, fv, iv in summ.carried if isinstance(fv, Stream)]
+    scal = [(r, p, fv, iv) for r, p, fv, iv in summ.carried if isinstance(fv, tuple) and fv and fv[0] == 'sym']
+    if len(summ.carried) != 2 or len(streams) != 1 or len(scal) != 1 or len(summ.back_states) != 1:
+        return None
+    (ir, ip, if_, i0), (ar, ap, af, a0) = streams[0], scal[0]
+    if not isinstance(i0, Stream) or not isinstance(a0, tuple):
+        return None
+    cur = []
+    if not _stream_cursors(i0, if_, cur) or not cur:
+        return None
+    st_head = summ.head_state
+    bs = summ.back_states[0]
+    try:
+        ne = stream_nonempty(it, st_head, if_)
+        bg = [(l[0], l[1]) for l in bs.guard]
+        if bg != [(ne, True)]:
+            return None
+        ib = it.read(bs, ir, ip)
+        tail = stream_tail(it, bs, if_)
+        accb = it.read(bs, ar, ap)
+    except Unsupported:
+        return None
+    if not isinstance(accb, tuple):
+        return None
+    if it.abstract(bs, ib) != it.abstract(bs, tail):
+        return None
+    # every cursor moves by exactly one element per iteration: express it through the iteration count ι
+    adv = []
+    if not _stream_cursors(if_, tail, adv):
+        return None
+    step = {}
+    for before, after in adv:
+        if after == it.iadd(before, iconst(1)):
+            step[before] = 1
+        elif after == it.isub(before, iconst(1)):
+            step[before] = -1
+        else:
+            return None
+    iota = it.fresh_sym('ι')
+    mapping = {}
+    for orig, head in cur:
+        if head not in step:
+            return None
+        mapping[head] = it.iadd(orig, iota) if step[head] == 1 else it.isub(orig, iota)
+    exits = [(t, s_) for t, ss in summ.exit_states.items() for s_ in ss]
+    if len(exits) != 1:
+        return None
+    et, es = exits[0]
+    eg = [(l[0], l[1]) for l in es.guard]
+    if eg != [(ne, False)] and eg != [(mk_not(ne), True)]:
+        return None
+    try:
+        if it.read(es, ar, ap) != af:
+            return None
+    except Unsupported:
+        return None
+    body = subst_term(accb, mapping)
+    st0 = summ.entry_state
+    t = ('fold', it.abstract(st0, i0), a0, af, iota, body)
+    ev = {'kind': 'fold', 'fn': frame.f['path'], 'line': summ.line, 'stream': i0, 'init': a0, 'acc': af, 'ivar': iota,
+          'body': body, 'elem': None, 'len': stream_len(it, st0, i0), 'term': t, 'from_loop': True}
+    it.events.append(ev)
+    summ.recognised = 'FOLD-LOOP'
+    return {'exit': et, 'root': ar, 'path': ap, 'value': t}
+
+
+# ---------------------------------------------------------------- loops that are searches
+def recanon(it, t, memo=None):
+    """re-normalise the integer sums inside a term (after a substitution)"""
+    if memo is None:
+        memo = {}
+    if not isinstance(t, tuple) or not t:
+        return t
+    r = memo.get(t)
+    if r is not None:
+        return r
+    parts = tuple(recanon(it, x, memo) if isinstance(x, tuple) else x for x in t[1:])
+    if t[0] == 'i+' and len(parts) == 2:
+        r = it.iadd(parts[0], parts[1])
+    elif t[0] == 'i-' and len(parts) == 2:
+        r = it.isub(parts[0], parts[1])
+    else:
+        r = (t[0],) + parts
+    memo[t] = r
+    return r
+
+
+def _lit(cond, pol):
+    """a branch decision as one positive condition"""
+    return cond if pol else mk_not(cond)
+
+
+def _find_seq_storage(it, st, seqterm):
+    """(root, path) of the sequence whose abstract term is `seqterm`"""
+    for root, v in st.store.items():
+        if isinstance(v, VecV):
+            try:
+                if v.seq.term() == seqterm:
+                    return root, (('seq',),)
+            except Exception:
+                pass
+        elif isinstance(v, SeqSym) and v.term() == seqterm:
+            return root, ()
+        elif isinstance(v, Struct):
+            for i, f in enumerate(v.fields):
+                if isinstance(f, VecV) and isinstance(f.seq, SeqSym) and f.seq.term() == seqterm:
+                    return root, (('f', i), ('seq',))
+    return None
+
+
+def close_search_loop(it, frame, summ):
+    r_ = _close_search_loop(it, frame, summ)
+    if isinstance(r_, str):
+        import os, sys
+        if os.environ.get('VERIF_DEBUG_LOOP'):
+            sys.stderr.write('SEARCH-LOOP not recognised in %s line %s: %s\n' % (frame.f['path'], summ.line, r_))
+        return None
+    return r_
+
+
+def _close_search_loop(it, frame, summ):
+    """SEARCH-LOOP: a loop that moves one cursor by one element per iteration while it is in range and a predicate on the
+    element at the cursor fails, changing nothing else, is a first-match search (`position`/`rposition`):
+        forward   c = c0, c0+1, … < hi :  exits with c = c0 + firstidx(seq[c0+off .. hi+off), P)   or  c = hi (no match)
+        backward  c = c0, c0−1, … > lo :  exits with c = lastidx(seq[lo+1+off .. c0+off+1), P) + lo + 1   or  c = lo
+    Returns {exit target: [states]} with the cursor replaced by that closed form, and records a `search` event."""
+    from .terms import subst_term, NF, subterms, term_str
+    if len(summ.back_states) != 1 or len(summ.carried) != 1:
+        return 'step 2'
+    r, p, fv, iv = summ.carried[0]
+    bs = summ.back_states[0]
+    try:
+        bv = it.read(bs, r, p)
+    except Unsupported:
+        return 'step 3'
+    one = iconst(1)
+    if isinstance(fv, SliceRef) and isinstance(iv, SliceRef) and isinstance(bv, SliceRef):
+        if (bv.root, bv.path) != (fv.root, fv.path):
+            return 'step 4'
+        if fv.start != iv.start and fv.end == iv.end and bv.end == fv.end:
+            c, c0, cb = fv.start, iv.start, bv.start
+        elif fv.end != iv.end and fv.start == iv.start and bv.start == fv.start:
+            c, c0, cb = fv.end, iv.end, bv.end
+        else:
+            return 'step 5'
+    elif isinstance(fv, tuple) and fv and fv[0] == 'sym' and isinstance(iv, tuple) and isinstance(bv, tuple):
+        c, c0, cb = fv, iv, bv
+    else:
+        return 'step 6'
+    if cb == it.iadd(c, one):
+        d = 1
+    elif cb == it.isub(c, one):
+        d = -1
+    else:
+        return 'step 7'
+    lits = [(l[0], l[1]) for l in bs.guard]
+    if len(lits) != 2:
+        return 'step 8'
+    (R, rpol), (Q, qpol) = lits
+    # the range test
+    bound = None
+    if R[0] == 'icmp' and R[2] == c:
+        op, b = R[1], R[3]
+        if d == 1 and ((op == 'lt' and rpol) or (op == 'ge' and not rpol)):
+            bound = b
+        if d == -1 and ((op == 'gt' and rpol) or (op == 'le' and not rpol) or (b == iconst(0) and ((op == 'ne' and rpol) or (op == 'eq' and not rpol)))):
+            bound = b
+    elif R[0] == 'icmp' and R[3] == c:
+        op, b = R[1], R[2]
+        if d == 1 and ((op == 'gt' and rpol) or (op == 'le' and not rpol)):
+            bound = b
+        if d == -1 and ((op == 'lt' and rpol) or (op == 'ge' and not rpol)):
+            bound = b
+    if bound is None or c in set(subterms(bound)):
+        return 'step 9'
+    # the element looked at
+    P = mk_not(Q) if qpol else Q           # the loop goes on while ¬P
+    elems = [t for t in subterms(P) if t[0] == 'elem' and c in set(subterms(t[2]))]
+    if not elems or len({(t[1], t[2]) for t in elems}) != 1:
+        return 'step 10'
+    seqterm, e = elems[0][1], elems[0][2]
+    nf = NF()
+    off = nf(e) - nf(c)
+    if not off.is_const() or off.const_value().denominator != 1:
+        return 'step 11'
+    off = iconst(int(off.const_value()))
+    # exits
+    exits = [(t, s_) for t, ss in summ.exit_states.items() for s_ in ss]
+    hits, done = [], []
+    for t, s_ in exits:
+        eg = [(l[0], l[1]) for l in s_.guard]
+        try:
+            if it.read(s_, r, p) != fv:
+                return 'step 12'
+        except Unsupported:
+            return 'step 13'
+        egn = [_lit(a_, b_) for a_, b_ in eg]
+        if egn == [_lit(R, not rpol)]:
+            done.append((t, s_))
+        elif egn == [_lit(R, rpol), _lit(Q, not qpol)]:
+            hits.append((t, s_))
+        else:
+            return 'step 14: exit guard %s vs range %s / test %s' % ([(term_str(a_), b_) for a_, b_ in eg], (term_str(R), rpol), (term_str(Q), qpol))
+    if len(hits) != 1 or len(done) != 1:
+        return 'step 15'
+    st0 = summ.entry_state
+    loc = _find_seq_storage(it, st0, seqterm)
+    if loc is None:
+        return 'step 16'
+    k = it.fresh_sym('ι')
+    if d == 1:
+        lo_e, hi_e = it.iadd(c0, off), it.iadd(bound, off)
+        Pk = recanon(it, subst_term(P, {c: it.iadd(c0, k)}))
+        kind, rev = 'firstidx', False
+    else:
+        lo_e, hi_e = it.iadd(it.iadd(bound, one), off), it.iadd(it.iadd(c0, off), one)
+        Pk = recanon(it, subst_term(P, {c: it.iadd(it.iadd(k, bound), one)}))
+        kind, rev = 'lastidx', True
+    base = Stream('src', (SliceRef(loc[0], loc[1], lo_e, hi_e, False), 'ref'))
+    sterm = it.abstract(st0, base)
+    found = ('found', sterm, k, Pk)
+    idx = (kind, sterm, k, Pk)
+    hitval = it.iadd(c0, idx) if d == 1 else it.iadd(it.iadd(idx, bound), one)
+    it.events.append({'kind': 'search', 'op': 'loop', 'fn': frame.f['path'], 'line': summ.line, 'stream': base, 'base': base, 'rev': rev,
+                      'ivar': k, 'pred': Pk, 'idx': idx, 'found': found, 'from_loop': True})
+    summ.recognised = 'SEARCH-LOOP'
+
+    def rewrite(s_, val, pol):
+        m = {c: val}
+        store = {}
+        for root, v in s_.store.items():
+            store[root] = it.subst_value(v, m)
+        facts = frozenset(subst_term(f, m) if isinstance(f, tuple) else f for f in s_.facts) | {found if pol else mk_not(found)}
+        return State(store, ((found, pol, None),), facts)
+    out = {}
+    out.setdefault(hits[0][0], []).append(rewrite(hits[0][1], hitval, True))
+    out.setdefault(done[0][0], []).append(rewrite(done[0][1], bound, False))
+    return out
